@@ -700,6 +700,12 @@ fn run_replay(checks: &[Check], file: &Path, print: bool, force_strict: bool) ->
     if std::env::var("VERIF_KEEP").is_err() {
         let _ = std::fs::remove_dir_all(scratch_base());
     }
+    if let Some(f) = out.failure.as_ref().filter(|f| f.signature.starts_with("harness:")) {
+        if print {
+            println!("REPLAY property={} part={} verdict=inconclusive harness failure {} :: {}", rf.property, rf.part, f.signature, f.message);
+        }
+        return 2;
+    }
     if let Some(f) = out.failure {
         if print {
             println!("REPLAY property={} part={} verdict=violation signature={}", rf.property, rf.part, f.signature);
@@ -801,6 +807,14 @@ fn run_parent(check: &Check, tier: Tier) -> i32 {
     }
     for (_, v) in aborted {
         merged.violations.push(v);
+    }
+    // A failure whose signature starts with "harness:" says that the harness itself could not do
+    // its work (scratch space full, cannot spawn, cannot build an input file ...): inconclusive,
+    // never a violation.
+    let (own, real): (Vec<ViolationRec>, Vec<ViolationRec>) = std::mem::take(&mut merged.violations).into_iter().partition(|v| v.signature.starts_with("harness:"));
+    merged.violations = real;
+    for v in own.iter().take(5) {
+        harness_failures.push(format!("part {}: {} :: {}", v.part, v.signature, truncate(&v.message, 300)));
     }
 
     // Classify violations against the committed known-findings file (never written here).
